@@ -156,7 +156,9 @@ def handle (req impl : String) : String × String :=
                     else if hasPredictorOnOther fs ps then "predictor-on-non-flate-lzw"
                     else "unexplained"
                   [s!"fail:bounded-differs-from-unbounded:{why}:L={L}"]
-              | some (.err _) => [s!"fail:bounded-ok-unbounded-err:unexplained:L={L}"]
+              | some (.err _) =>
+                let why := if hasPredictorOnOther fs ps then "predictor-on-non-flate-lzw" else "unexplained"
+                [s!"fail:bounded-ok-unbounded-err:{why}:L={L}"]
               | _ => [])
           | .err =>
             match uRes with
